@@ -68,7 +68,7 @@ def join_unit(ctx, src):
             r'for (size_t verif_i = 0; verif_i < items->n; verif_i++) { const vslice* \1 = c8_item(items, verif_i);')
     APP = L('ret += item;', 'if (verif_i == g_pj) g_joff = ret->size; if (verif_i == g_pj + 1) g_joff2 = ret->size; '
             'c8_append(ret, items->src->data + item->start, item->len);')
-    common = [L('string ret;', ''), FOR, APP, L('return ret;', 'return;')]
+    common = [L('string ret;', ''), FOR, APP, L('return ret;', 'return;'), R(r'\bret\.empty\(\)', '(ret->size == 0)', None)]
     # a boolean "first iteration" flag (if the text has one) is tied to the loop index in the invariant
     text = src.text(HH)
     _, body, _, _ = find_def(text, r'std::string join\(const ItemContainerT& items, DelimiterT& delim\)', 'function')
@@ -79,7 +79,7 @@ def join_unit(ctx, src):
         extra_assigns = ', ' + mo.group(1)
     u.function(src, HH, r'std::string join\(const ItemContainerT& items, DelimiterT& delim\)',
                new_header='void join_delim(vout* ret, const vsvec* items, char delim)',
-               rules=common + [R(r'\bret\.empty\(\)', '(ret->size == 0)', None), L('ret += delim;', 'c8_push_back(ret, delim);')],
+               rules=common + [L('ret += delim;', 'c8_push_back(ret, delim);')],
                nloops=1, loops={1: JOIN_LOOP % dict(seplen=1, extra_inv=extra_inv, extra_assigns=extra_assigns,
                    sep_inv='__CPROVER_loop_invariant((g_pj + 1 < verif_i && g_obase == g_joff + PJ_LEN(items) && g_rk == 0) ==> g_oval == delim)')})
     u.function(src, HH, r'std::string join\(const ItemContainerT& items\)',
@@ -109,7 +109,7 @@ def strip_unit(ctx, src):
 
 REPLACE_LOOP = """
 __CPROVER_assigns(read_offset, ret->size, g_oval, g_wit, g_it, g_rstart, g_rfind, g_rout, g_nstart, g_nout, g_rwit, g_rend, g_rnext, g_rnout)
-__CPROVER_loop_invariant(read_offset <= s->size && ret->size <= VSTR_MAXCAP && g_it <= read_offset)
+__CPROVER_loop_invariant(g_srcsize == s->size && g_srcd == s->data && read_offset <= g_srcsize && ret->size <= VSTR_MAXCAP && g_it <= read_offset)
 __CPROVER_loop_invariant(target_size == g_tlen && replacement_size == g_rlen)
 __CPROVER_loop_invariant(g_it == 0 ==> (read_offset == 0 && ret->size == 0))
 __CPROVER_loop_invariant((g_pj < g_it && g_pj == 0) ==> (g_rstart == 0 && g_rout == 0))
@@ -120,9 +120,9 @@ __CPROVER_loop_invariant(g_pj < g_it ==> SEG_LEFTMOST)
 __CPROVER_loop_invariant(g_pj < g_it ==> SEG_COPIED)
 __CPROVER_loop_invariant(g_pj < g_it ==> SEG_REPLACED)
 __CPROVER_loop_invariant(g_pj < g_it ==> (g_rout <= g_rnout && g_rnout <= ret->size))
-__CPROVER_loop_invariant(g_pj + 1 < g_it ==> (g_nstart == g_rnext && g_nout == g_rnout && g_nstart < s->size))
+__CPROVER_loop_invariant(g_pj + 1 < g_it ==> (g_nstart == g_rnext && g_nout == g_rnout && g_nstart < g_srcsize))
 __CPROVER_loop_invariant(g_pj + 1 == g_it ==> (read_offset == g_rnext && ret->size == g_rnout))
-__CPROVER_decreases(s->size - read_offset)
+__CPROVER_decreases(g_srcsize - read_offset)
 """
 
 
@@ -130,8 +130,8 @@ def replace_unit(ctx, src):
     u = Unit(ctx, 'replace')
     u.raw('#include "contracts/C08_replace.h"\n')
     GH = (r'size_t \1 = c8_find_buf(s, \2, \3, \4); '
-          r'if (g_it == g_pj) { g_rstart = \3; g_rfind = \1; g_rout = ret->size; g_rwit = g_wit; g_rend = SEG_MATCH ? g_rfind : s->size; '
-          r'g_rnext = SEG_MATCH ? g_rfind + g_tlen : s->size; g_rnout = g_rout + (g_rend - g_rstart) + (SEG_MATCH ? g_rlen : 0); } '
+          r'if (g_it == g_pj) { g_rstart = \3; g_rfind = \1; g_rout = ret->size; g_rwit = g_wit; g_rend = SEG_MATCH ? g_rfind : g_srcsize; '
+          r'g_rnext = SEG_MATCH ? g_rfind + g_tlen : g_srcsize; g_rnout = g_rout + (g_rend - g_rstart) + (SEG_MATCH ? g_rlen : 0); } '
           r'if (g_pj != C8_NPOS && g_it == g_pj + 1) { g_nstart = \3; g_nout = ret->size; } g_it++;')
     u.function(src, CC, r'string str_replace_all\(const string& s, const char\* target, const char\* replacement\)',
                new_header='void str_replace_all(vout* ret, const vstr* s, const char* target, const char* replacement)',
@@ -176,8 +176,8 @@ def skip_unit(ctx, src):
     for sfx, ty in (('str', r'const string& s'), ('cstr', r'const char\* s')):
         u.function(src, CC, r'size_t skip_word\(%s, size_t offset\)' % ty,
                    new_header='size_t skip_word_%s(%s s, size_t offset)' % (sfx, 'const vstr*' if sfx == 'str' else 'const char*'),
-                   rules=[R(r'return skip_whitespace\(s, skip_non_whitespace\(s, (\w+)\)\);',
-                            r'g_mid = skip_non_whitespace_%s(s, \1); return skip_whitespace_%s(s, g_mid);' % (sfx, sfx))])
+                   rules=[R(r'return (skip_\w+)\(s, (skip_\w+)\(s, (\w+)\)\);',
+                            r'g_mid = \2_%s(s, \3); return \1_%s(s, g_mid);' % (sfx, sfx))])
     FOR = R(r'for \(char (\w+) : s\) \{', r'for (size_t verif_i = 0; verif_i < s->size; verif_i++) { char \1 = s->data[verif_i];')
     for fn, spec in (('toupper', 'C8_UPPER'), ('tolower', 'C8_LOWER')):
         u.function(src, CC, r'string %s\(const string& s\)' % fn, new_header='void %s_str(vout* ret, const vstr* s)' % fn,
@@ -248,6 +248,26 @@ def args_unit(ctx, src):
     return u
 
 
+COMMENTS_LOOP = """
+__CPROVER_assigns(z, write_offset, is_in_comment, __CPROVER_object_whole(s->data), g_z0, g_wo0, g_wo, g_c, g_c2, g_oprev, g_havenext, g_in0, g_in)
+__CPROVER_loop_invariant(z <= s->size && write_offset <= z && g_wo == write_offset && (g_in ? 1 : 0) == (is_in_comment ? 1 : 0))
+__CPROVER_loop_invariant((g_sk >= z && g_sk < s->size) ==> s->data[g_sk] == g_sval)
+__CPROVER_decreases(s->size - z)
+"""
+
+
+def comments_unit(ctx, src):
+    u = Unit(ctx, 'comments')
+    u.raw('#include "contracts/C08_comments.h"\n')
+    u.function(src, HH, r'void strip_multiline_comments\(StrT& s, bool allow_unterminated = false\)',
+               new_header='void strip_multiline_comments(vstr* s, bool allow_unterminated)', ret_zero='', body_prefix=' g_wo = 0; g_in = 0; ',
+               rules=[SIZES[0], R(r'\bs\[([^\]]+)\]', r's->data[\1]', '+'), R(r'\bs\.resize\(([^;]*)\);', r"vstr_resize(s, \1, '\\0');"),
+                      R(r'for \(size_t z = 0; ([^;]*);\s*\) \{',
+                        r'for (size_t z = 0; \1; c8_cmt_check(s, z, write_offset, is_in_comment)) { CMT_SNAPSHOT(s, z, write_offset, is_in_comment)')],
+               nloops=1, loops={1: COMMENTS_LOOP})
+    return u
+
+
 def plan(ctx):
     src = Source(ctx.src)
     groups = []
@@ -257,6 +277,9 @@ def plan(ctx):
     RP = lambda mode: Replay(driver='C08/strings.cc', mode=mode, sources=ALL_LIB, small_define='VERIF_SMALL')
     groups.append(Group(name='split', harness='harness/C08/split.c', entry='h_split', function='split(const string&, char, size_t)',
                         enforce='split', replace=['c8_find_ch'], loops=True, kind='loop-contract', replay=RP('split'), timeout=300, stage1=90, fallback_unwind=8))
+    groups.append(Group(name='split.count[bounded]', harness='harness/C08/split.c', entry='b_split_count', function='split: number of pieces',
+                        defines=['C8_CONCRETE=1', 'BSPLIT_N=6'], kind='bounded', bound='strings of length <= 6 (all contents, delimiters, max_splits)',
+                        cbmc_flags=['--unwind', '9', '--unwinding-assertions'], replay=RP('split'), min_post=2))
     uj = join_unit(ctx, src)
     uj.write()
     ctx.functions_under_contract += uj.functions
@@ -279,7 +302,7 @@ def plan(ctx):
     ctx.functions_under_contract += ur.functions
     groups.append(Group(name='str_replace_all', harness='harness/C08/replace.c', entry='h_str_replace_all', function='str_replace_all (non-empty target)',
                         enforce='str_replace_all', replace=['c8_find_buf', 'c8_strlen'], loops=True, kind='loop-contract', replay=RP('str_replace_all'),
-                        timeout=300, stage1=90, fallback_unwind=8, min_post=9))
+                        timeout=900, stage1=300, fallback_unwind=8, min_post=9))
     uk = skip_unit(ctx, src)
     uk.write()
     ctx.functions_under_contract += uk.functions
@@ -307,13 +330,70 @@ def plan(ctx):
     ctx.functions_under_contract += ua.functions
     groups.append(Group(name='split_args', harness='harness/C08/args.c', entry='h_split_args', function='split_args',
                         enforce='split_args', loops=True, kind='loop-contract', replay=RP('split_args'), timeout=300, stage1=90, fallback_unwind=8, min_post=9))
+    uc = comments_unit(ctx, src)
+    uc.write()
+    ctx.functions_under_contract += uc.functions
+    groups.append(Group(name='strip_multiline_comments', harness='harness/C08/comments.c', entry='h_strip_multiline_comments',
+                        function='strip_multiline_comments<std::string>', enforce='strip_multiline_comments', replace=['vstr_resize'], loops=True,
+                        kind='loop-contract', replay=RP('strip_multiline_comments'), timeout=300, stage1=90, fallback_unwind=8, min_post=7))
     return groups
 
 
-EXPLANATION = ''
-TRUSTED = []
-ASSUMPTIONS = []
-DROPS = ''
-NOT_DECIDED = []
+EXPLANATION = ('The loop logic of every listed helper is cut from src/Strings.cc / src/Strings.hh on each run and put under a function contract with '
+               'loop contracts (goto-instrument --dfcc, cbmc); std::string / vector<string> / libc calls are bound to the stub models of '
+               'stubs/C08_str.h. Universals are stated with ghost indices (one symbolic piece g_pj, one symbolic byte), so every discharged clause '
+               'holds for all strings of every length (< 2^47 bytes), all delimiters and all max_splits. split / split_context: tiling facts '
+               '(start_0 = 0, start_{j+1} = end_j + 1, s[end_j] == delim, last end == size), no (top-level) delimiter inside a piece unless max_splits '
+               'stopped the splitting, count <= max_splits + 1; join: result = pieces interleaved with the delimiter; join(split(s)) == s is an '
+               'induction over the piece index whose base and step are lemmas over the two contracts. split_context, split_args and '
+               'strip_multiline_comments are checked in lock-step against reference automata written from the plain definitions (one assertion set '
+               'per loop iteration, executed from the loop increment). strip_* / starts_with / ends_with / str_replace_all / skip_* / toupper / '
+               'tolower: postconditions are the plain definitions.')
+TRUSTED = ['stubs/C08_str.h: models of std::string find / find_first_not_of / find_last_not_of / compare / substr / append / push_back / resize, '
+           'vector<string> as recorded slices (ghost piece), toupper / tolower / isblank in the "C" locale',
+           'stubs/vstr.h (std::string {data,size,cap} model, vstr_resize contract)',
+           'contracts/C08_*.h: specification macros (reference automata CTX_*, ARG_*, CMT_*, segment facts SEG_*, C8_WS, C8_UPPER/C8_LOWER) and the '
+           'stack / argument-vector abstractions (depth + innermost closer; operation log)',
+           'props/C08.py extraction rules: range-for -> index loop, out-parameters for returned strings / vectors, ghost recording statements, '
+           'lock-step check calls placed in the loop increment']
+ASSUMPTIONS = ['string sizes below 2^47 bytes (cbmc object size limit); vectors below 2^36 elements',
+               'allocation succeeds: result strings / vectors grow without length_error or bad_alloc (__CPROVER_assume in the append / push_back stubs)',
+               'representation invariant of the input vector model of join: every element is a slice of one backing string (assumed at each element access); '
+               'any vector<string> is representable this way (backing string = concatenation of its elements)',
+               '"C" locale for ::toupper / ::tolower / isblank; glibc semantics for plain-char arguments in -128..-2 (ISO C leaves them undefined: '
+               'phosg::toupper/tolower pass char directly) -- the table maps only a-z / A-Z',
+               'str_replace_all: non-empty target (the precondition named in the property; with an empty target the loop does not terminate)',
+               'C-string overloads of skip_*: offset <= strlen(s)',
+               'split_args reference: an argument exists from its first written character (an empty quoted string alone yields no argument); NUL is an '
+               'ordinary non-blank character',
+               'split_context: "top-level" = nesting depth 0 of the reference automaton; the no-top-level-delimiter clause is vacuous when the '
+               'delimiter is itself one of ( [ { < \' " (such a character always opens a level)',
+               'join is instantiated for ItemContainerT = vector<string>, DelimiterT = char; strip_* for StrT = std::string']
+DROPS = ('returned std::string / vector<string> -> out-parameters (vout: size + one ghost byte; vvec: count + one ghost slice; vargs: operation log); '
+         'const std::string& -> const vstr*; range-for -> index loop; std::string::npos -> C8_NPOS; vector<char> paren_stack -> (depth, innermost closer) with '
+         'an unconstrained closer after pop; s = s.substr(..) -> pointer shift of the view; exceptions -> verif_exc flag; ghost statements assign only g_* variables')
+NOT_DECIDED = ['string_vprintf / string_printf (libc vasprintf; "results far longer than any internal buffer": there is no internal buffer on the POSIX path) -- not '
+               'expressible as a contract over this code without a model of printf',
+               'split(const wstring&, wchar_t, size_t): same text as the string overload, not instantiated',
+               'the numeric equation count == min(#delimiters, max_splits) + 1 is decided through the tiling facts (every separator is a delimiter, no '
+               'delimiter inside an uncapped piece, count - 1 <= max_splits); the final counting induction over pieces is a meta-argument, as is the '
+               'induction principle that turns the base/step lemmas into join(split(s)) == s',
+               'join for containers / delimiter types other than vector<string> / char',
+               'ISO-C undefined behaviour of ::toupper(ch) / ::tolower(ch) for bytes >= 0x80 (negative plain char): assumed glibc table semantics',
+               'strip_* for StrT other than std::string; split_context nesting content below the innermost level (abstracted, over-approximated)']
 CLAIMED = True
-MANIFEST = dict(category='proof', text='', note='', technique='')
+MANIFEST = dict(
+    category='proof',
+    text=('split, split_context, split_args, join (both templates), strip_trailing_zeroes/whitespace, strip_leading_whitespace, strip_whitespace, '
+          'strip_multiline_comments, starts_with, ends_with, toupper, tolower, str_replace_all (non-empty target), skip_whitespace / skip_non_whitespace / '
+          'skip_word (std::string and C-string overloads): the loop logic extracted from the source is proved against contracts that are the plain '
+          'reference definitions, for strings of every length, all delimiters, all max_splits (loop contracts + ghost indices; lock-step reference '
+          'automata for split_context / split_args / strip_multiline_comments); join(split(s,d),d) == s and join(split_context(s,d),d) == s as '
+          'base/step lemmas over the contracts. Two defects found and reproduced natively: join(items, delim) drops the delimiter after empty leading '
+          'items (join(split(",")) == ""), split_args drops NUL bytes.'),
+    note=('Trusted: cbmc/goto-instrument, the answering SAT solver, the extractor and its rules, the std::string / vector / libc stub models of '
+          'stubs/C08_str.h (allocation succeeds is assumed there), the specification macros. Not decided: string_vprintf, wstring split, the final counting / '
+          'induction meta-arguments, other template instantiations. "C" locale assumed for case mapping and isblank.'),
+    technique='function + loop contracts (requires/ensures/assigns, loop_invariant/decreases) enforced with goto-instrument --dfcc, ghost-index universals, '
+              'lock-step reference automata, lemmas over contracts; discharged by cbmc (SAT portfolio)',
+)
